@@ -467,6 +467,9 @@ class Session:
         with Quiet():
             for d, res in zip(tealer.detectors, results):
                 o = observe.output_obs(res)
+                # one output per (operation, transaction): compared as a multiset, the order in
+                # which a config lists its operations is not part of the result
+                o["outs"] = sorted(o["outs"], key=lambda x: x["json"])
                 dets.append([d.NAME, observe.digest(o)])
                 if full:
                     fulls["det:" + d.NAME] = o
